@@ -432,9 +432,46 @@ func checkFeeFormula(c *Ctx) {
 	c.Floor("C07-R3", "divisions in FeeForSerializeSize", n, 1)
 }
 
+// checkInputSizeConstantsAgree (sibling agreement): every Redeem<kind>InputSize is "outpoint (32+4) + script length
+// byte + sigScript + sequence (4)": the fixed part, InputSize - <its sigScript size>, is the same number for all four
+// input kinds. A kind whose constant drops a byte under-estimates every transaction with two or more such inputs.
+func checkInputSizeConstantsAgree(c *Ctx) {
+	p := c.P
+	pairs := [][3]string{{"P2PKH", "RedeemP2PKHInputSize", "RedeemP2PKHSigScriptSize"}, {"P2WPKH", "RedeemP2WPKHInputSize", "RedeemP2WPKHScriptSize"},
+		{"P2TR", "RedeemP2TRInputSize", "RedeemP2TRScriptSize"}, {"NestedP2WPKH", "RedeemNestedP2WPKHInputSize", "RedeemNestedP2WPKHScriptSize"}}
+	fixed := map[string]int64{}
+	count := map[int64]int{}
+	for _, pr := range pairs {
+		in, ok1 := constInPkg(p, "wallet/txsizes", pr[1])
+		sc, ok2 := constInPkg(p, "wallet/txsizes", pr[2])
+		if !ok1 || !ok2 {
+			c.Unresolved("C07-R2", "txsizes."+pr[1]+" / "+pr[2])
+			continue
+		}
+		fixed[pr[0]] = in - sc
+		count[in-sc]++
+	}
+	var common int64
+	for v, k := range count {
+		if k > count[common] || count[common] == 0 {
+			common = v
+		}
+	}
+	for _, pr := range pairs {
+		v, ok := fixed[pr[0]]
+		if !ok {
+			continue
+		}
+		c.Check("C07-R2", "input-size-constant-fixed-part:"+pr[0], 0, v == common,
+			fmt.Sprintf("%s - %s = %d, but for the other input kinds the fixed part of an input (outpoint, script length byte, sequence) is %d: the size of %s inputs is mis-estimated by %d byte(s) each", pr[1], pr[2], v, common, pr[0], common-v))
+	}
+	c.Floor("C07-R2", "input size constants", len(fixed), 4)
+}
+
 func checkAuthor(c *Ctx, fn *ssa.Function) {
 	p := c.P
 	checkCountsPerPass(c, fn)
+	checkInputSizeConstantsAgree(c)
 	checkFeeFormula(c)
 	// the change output value: NewTxOut(int64(changeAmount), script)
 	var newTxOut *ssa.Call
